@@ -2235,7 +2235,12 @@ static int _ov_initprime(OggVorbis_File *vf){
 
     /* suck in another packet */
     {
-      int ret=_fetch_and_process_packet(vf,NULL,1,0);
+      /* the position we are priming at may lie where its link has
+         no audio left (an empty link, the last packet of a link);
+         the audio that follows is then the next link's: span.  Not
+         spanning would also leave the next link's first page
+         consumed, and the reads after that would skip the link */
+      int ret=_fetch_and_process_packet(vf,NULL,1,1);
       if(ret<0 && ret!=OV_HOLE)return(ret);
     }
   }
